@@ -68,6 +68,16 @@ func (g *gen) payload() string {
 	for i := 0; i < n; i++ {
 		sb.WriteString(g.pick(g.alphabet))
 	}
+	if g.chance(0.06) {
+		// a length right at a capacity boundary of the buffer (initial
+		// capacity, its doublings, and a few bytes either side)
+		want := []int{64, 128, 256, 512}[g.r.Intn(4)] - 4 + g.r.Intn(8)
+		for sb.Len() < want {
+			sb.WriteString(g.pick(g.alphabet))
+			sb.WriteString("0123456789abcdef"[:1+g.r.Intn(15)])
+		}
+		return sb.String()[:want]
+	}
 	return sb.String()
 }
 
@@ -77,7 +87,9 @@ func (g *gen) lit() string {
 	if len(s) > 200 {
 		s = s[:200]
 	}
-	return strings.ReplaceAll(s, "%", "pc")
+	// ("Pc", not "pc": after a stray '%' the latter would read as the verb
+	// %p, which prints addresses for maps, slices and funcs)
+	return strings.ReplaceAll(s, "%", "Pc")
 }
 
 // redactableLit returns a well-formed redactable string literal.
@@ -110,7 +122,8 @@ func (g *gen) redactableLit() string {
 
 var simpleKinds = []string{"int", "int", "str", "str", "str", "bytes", "bool", "f64", "i8", "u8", "u64", "rune", "nil", "cplx", "f32", "uint", "i64"}
 var safeKinds = []string{"sstr", "sint", "suint", "sfloat", "srune", "sbyte", "sbytes", "regsafeint"}
-var scriptedList = []string{"stringer", "error", "wraperr", "formatter", "gostringer", "safefmt", "safemsg", "errfmt", "errsafefmt", "errstr", "safeval", "regsafe"}
+var scriptedList = []string{"stringer", "error", "wraperr", "formatter", "gostringer", "safefmt", "safemsg", "errfmt", "errsafefmt", "errstr", "safeval", "regsafe",
+	"liststringer", "maperror", "intstringer", "strformatter"}
 
 func (g *gen) simple() Val {
 	k := g.pick(simpleKinds)
@@ -291,12 +304,12 @@ func (g *gen) scripted(kind string, depth int) Val {
 		v.R = v.R[:300]
 	}
 	switch kind {
-	case "stringer", "error", "gostringer", "safemsg", "errstr", "safeval", "regsafe":
+	case "stringer", "error", "gostringer", "safemsg", "errstr", "safeval", "regsafe", "liststringer", "nilliststringer", "maperror", "intstringer":
 		v.P = g.ctlSteps(depth, true)
 	case "wraperr":
 		v.P = g.ctlSteps(depth, true)
 		v.V = []Val{{K: "goerr", S: Str("inner " + g.payload())}}
-	case "formatter", "errfmt":
+	case "formatter", "errfmt", "strformatter":
 		n := 1 + g.r.Intn(4)
 		for i := 0; i < n; i++ {
 			switch g.r.Intn(6) {
@@ -468,7 +481,9 @@ func (g *gen) op(depth int) Op {
 		// %w somewhere, with an error operand most of the time
 		if g.chance(0.8) {
 			var ev Val
-			switch g.r.Intn(5) {
+			switch g.r.Intn(6) {
+			case 5:
+				ev = g.scripted("maperror", depth) // an error of an uncomparable type
 			case 0:
 				ev = Val{K: "goerr", S: Str(g.payload())}
 			case 1:
@@ -484,7 +499,16 @@ func (g *gen) op(depth int) Op {
 			f += g.lit() + "%w"
 			if g.chance(0.15) {
 				f += " %w"
-				a = append(a, Val{K: "goerr", S: "second"})
+				if g.chance(0.5) {
+					// a second error of the same kind (and dynamic type) as the first
+					second := ev
+					if scriptedKinds[second.K] {
+						second.ID = g.id()
+					}
+					a = append(a, second)
+				} else {
+					a = append(a, Val{K: "goerr", S: "second"})
+				}
 			}
 		}
 		return Op{K: k, F: Str(f), A: a}
